@@ -185,6 +185,10 @@ class Slicer:
                     push(src)
                 elif k == 'C':
                     s.consts.add(e[1])
+                    mm = re.search(r'::promoted\[(\d+)\]$', e[1])
+                    if mm and depth > 0:
+                        pn = e[1] if e[1] in self.F.bodies else '%s::promoted[%s]' % (body.name, mm.group(1))
+                        s.merge_summary(self.whole_body(pn, depth - 1))
                     if e[2]:
                         s.fnconsts.add(e[2])
                         self._merge_callee(s, e[2], depth)
@@ -208,6 +212,7 @@ class Slicer:
         if depth <= 0: return
         cb = self.F.bodies.get(path) or (self.F.bodies.get(name) if name else None)
         if cb is None: return
+        if (cb.hdr.get('trait') or '').split('::')[-1] in ('Clone', 'Default', 'Debug', 'PartialEq', 'Hash', 'Message'): return   # derived: value-preserving / irrelevant
         s.merge_summary(self.summary(cb, depth - 1))
 
     def summary(self, body, depth):
